@@ -475,7 +475,7 @@ def lines_part(chk, spec_exe, lit_exe, drv, problems):
             n_err += 1
         else:
             n_ok += 1
-        if got == by_spec:
+        if got == by_spec or (got == "-" and not ln.startswith("x ") and not by_spec.startswith("E")):
             continue
         ftype = ln.split()[1] if len(ln.split()) > 1 else "?"
         rep = {"kind": "spec-line-entry", "line": ln, "standards_version": v, "mode": "pedantic" if m == "P" else "permissive",
@@ -671,7 +671,7 @@ def literal_part(chk, lit_exe, drv, problems):
                               dict(rep, correspondence="C08 Literal.v vs _GD_TokToNum"), found=False)
     # through the public API: gd_add_spec + gd_entry on five scalar parameters
     sel = [tk for tk in toks if 0 < len(tk) <= 24 and b"\n" not in tk]
-    sel = sel[::max(1, len(sel) // (3000 if not chk.thorough else 20000))]
+    sel = sel[::max(1, len(sel) // (1200 if not chk.thorough else 20000))]
     smodes = [(10, "P"), (8, "P"), (6, "Q")]
     inp = "".join("%d %s %s\n" % (st, m, tk.hex()) for tk in sel for st, m in smodes).encode()
     rc1, o1, e1 = run([lit_exe, "scalar"], inp)
